@@ -106,6 +106,8 @@ Definition py_list_append (l x : pv) : pm pv := lift (Val.py_list_append l x).
 Definition py_list_pop (l : pv) : pm pv := lift (Val.py_list_pop l).
 Definition py_dict_get (d k : pv) : pm pv := lift (Val.py_dict_get d k).
 Definition py_iter (v : pv) : pm (list pv) := lift (Val.py_iter v).
+Definition py_to_bytes_le (v k : pv) : pm pv := lift (Val.py_to_bytes_le v k).
+Definition py_eq_obj (a b : pv) : pm bool := lift (Val.py_eq_obj a b).
 
 (* ---- operations taking computations ---- *)
 Fixpoint py_all (l : list pv) (f : pv -> pm pv) : pm pv :=
